@@ -9,10 +9,13 @@ var $getStackDepth = () => {
 
 var $panicStackDepth = null, $panicValue;
 var $callDeferred = (deferred, jsErr, fromPanic) => {
+    var index = fromPanic ? -1 : $curGoroutine.deferStack.indexOf(deferred);
     $runDeferred(deferred, jsErr, fromPanic);
-    if (!fromPanic && $curGoroutine.exit && !$curGoroutine.asleep) {
-        /* runtime.Goexit() is terminating this goroutine: after this frame's deferred
-           calls have run, keep unwinding instead of returning to the caller. */
+    if (!fromPanic && $curGoroutine.exit && !$curGoroutine.asleep && index !== -1 && index < $curGoroutine.exitDepth) {
+        /* runtime.Goexit() is terminating this goroutine: after the deferred calls of a
+           frame that was active when Goexit was called have run, keep unwinding instead of
+           returning to the caller. Frames entered later (functions called by the deferred
+           calls) return normally. */
         throw null;
     }
 };
